@@ -48,9 +48,12 @@ def run_core_model(core_drv, proj, workdir, fuel=None):
     code_txt = code_part[len("CODE\n"):] if code_part.startswith("CODE\n") else code_part
     certs = []
     lines = []
+    frag = None
     for l in code_txt.split("\n"):
         if l.startswith("CERT "):
             certs.append(l[5:] == "true")
+        elif l.startswith("FRAG "):
+            frag = l[5:] == "true"
         else:
             lines.append(l)
     fns = programs.parse_dump("file 8 main.mmm\n" + "\n".join(lines) + ("\n" if lines and lines[-1] != "" else ""))
@@ -63,7 +66,7 @@ def run_core_model(core_drv, proj, workdir, fuel=None):
             ev_lines.append("")
         elif l.startswith("RESULT "):
             result = tuple(l[7:].split(" "))
-    return {"code": fns, "certs": certs, "eval_out": ev_lines, "eval_result": result}, None
+    return {"code": fns, "certs": certs, "eval_out": ev_lines, "eval_result": result, "in_fragment": frag}, None
 
 
 def strip_file(name):
@@ -152,6 +155,7 @@ def tie_all(ctx, binary, projs, label, want_t1=True):
         if want_t1:
             res["t1"] = compare_code(dump, m["code"])
         res["cert"] = m["certs"]
+        res["in_fragment"] = m["in_fragment"]
         if len(real["trace"]) > MAX_STEPS:
             res["t2"] = ("fuel", "run longer than %d instructions: not replayed on the model" % MAX_STEPS)
         else:
@@ -182,7 +186,10 @@ def slim(proj):
 
 def report_results(ctx, binary, results, label, shrink_budget=40, max_shrinks=1):
     """turn tie results into reports + statistics (shared by C01, C07, C12, C15, C17)"""
-    st = {"programs": 0, "rejected": 0, "t1_equal": 0, "t2_agree": 0, "t3_ok": 0, "steps": 0, "skipped": 0, "model_crash": 0}
+    st = {"programs": 0, "rejected": 0, "t1_equal": 0, "t2_agree": 0, "t3_ok": 0, "steps": 0, "skipped": 0, "model_crash": 0,
+          # programs inside the decidable fragment of Compile/StmtFragB.v: C01_fragment_correct_partial is a theorem about
+          # them; with T1 equal it is a theorem about the code the REAL compiler emitted for them
+          "in_proved_fragment": 0, "in_proved_fragment_and_real_code_equal": 0}
     shrinks = 0
     kinds = {}
     for r in results:
@@ -195,6 +202,10 @@ def report_results(ctx, binary, results, label, shrink_budget=40, max_shrinks=1)
             continue
         st["programs"] += 1
         st["steps"] += r.get("steps", 0)
+        if r.get("in_fragment"):
+            st["in_proved_fragment"] += 1
+            if r["t1"] is None:
+                st["in_proved_fragment_and_real_code_equal"] += 1
         if r["t1"] is None:
             st["t1_equal"] += 1
         else:
